@@ -8,7 +8,7 @@ NOT_YET = {}
 NOTES = ('All checks are property-based / fuzzing checks: a harness decodes a byte string into a structured case (operation history, Message, '
          'segmentation plan, fault plan, thread schedule), runs it against the real code built from /repo\'s working tree with ASan+UBSan, and '
          'evaluates an explicit oracle. quick = regression inputs + a fixed number of cases from a splitmix64 stream seeded by VERIF_SEED on 16 '
-         'worker processes; thorough = ten times as many seeded cases plus a coverage-guided libFuzzer campaign on the same harness. '
+         'worker processes; thorough = eight times as many seeded cases plus a coverage-guided libFuzzer campaign on the same harness. '
          'known_findings.json lists genuine defects (fixed ones with their commit; open ones are reported as KNOWN-FINDING lines).')
 ENGINES = [
     {'name': 'PR', 'path': 'engine/runner_main.cpp', 'serves_properties': [], 'kind_free_text': 'seeded standalone runner: byte strings from splitmix64(VERIF_SEED) decoded into structured cases; pure function of tree and seed'},
@@ -31,7 +31,7 @@ CHECKS['C16'] = {
                     'FastClear is generated for the trivially-typed item type only (documented to leave non-POD items behind)',
                     'self-doubling operations are skipped above 2000 items'],
     'targets': [
-        {'name': 'c16_queue', 'src': ['harness/C16_queue.cpp'], 'quick_n': 2000000, 'thorough_n': 40000000, 'maxlen': 400, 'min_nontrivial': 100000,
+        {'name': 'c16_queue', 'src': ['harness/C16_queue.cpp'], 'quick_n': 2000000, 'thorough_n': 16000000, 'maxlen': 400, 'min_nontrivial': 100000,
          'class_floors': {'case_with_op_on_wrapped_ring': 50000, 'case_with_aliasing_operand': 50000, 'item_type_tracked': 200000, 'max_size_13_to_64': 20000}},
     ],
 }
@@ -47,7 +47,7 @@ CHECKS['C17'] = {
              'the length across the 15/16 small-buffer boundary in either direction, or had an operand aliasing the String itself. Distinct: hash of the decoded op/argument bytes.'),
     'assumptions': ['numeric-parse member functions do not exist in util/String.h at this commit; Arg() substitution is checked on templates with single-digit tokens and %-free values'],
     'targets': [
-        {'name': 'c17_string', 'src': ['harness/C17_string.cpp'], 'quick_n': 6000000, 'thorough_n': 60000000, 'maxlen': 300, 'min_nontrivial': 400000,
+        {'name': 'c17_string', 'src': ['harness/C17_string.cpp'], 'quick_n': 6000000, 'thorough_n': 48000000, 'maxlen': 300, 'min_nontrivial': 400000,
          'class_floors': {'case_crossing_small_buffer_boundary': 100000, 'case_with_aliasing_operand': 100000, 'unflatten_truncated_rejected': 1000}},
     ],
 }
@@ -66,9 +66,9 @@ CHECKS['C09'] = {
     'assumptions': ['c09_ordered: the order among entries that compare equal in a sorted-by-value table, whether SwapContents carries the auto-sort setting, and whether an explicit Sort() keeps equal entries in place are not documented and not judged',
                     'c09_ordered: positional operations (MoveToFront, PutBefore ...) are not applied to the auto-sorting variants (documented to disorder them until Sort()/Reposition())'],
     'targets': [
-        {'name': 'c09_hashtable', 'src': ['harness/C09_hashtable.cpp'], 'quick_n': 500000, 'thorough_n': 8000000, 'maxlen': 700, 'min_nontrivial': 50000, 'budget': 60,
+        {'name': 'c09_hashtable', 'src': ['harness/C09_hashtable.cpp'], 'quick_n': 500000, 'thorough_n': 4000000, 'maxlen': 700, 'min_nontrivial': 50000, 'budget': 60,
          'class_floors': {'case_mutation_with_iterator_mid_table': 50000, 'case_index_width_change_with_iterator_alive': 300, 'profile_256': 20000, 'profile_65536': 50}},
-        {'name': 'c09_ordered', 'src': ['harness/C09_ordered.cpp'], 'quick_n': 400000, 'thorough_n': 8000000, 'maxlen': 500, 'min_nontrivial': 50000, 'budget': 30,
+        {'name': 'c09_ordered', 'src': ['harness/C09_ordered.cpp'], 'quick_n': 400000, 'thorough_n': 3200000, 'maxlen': 500, 'min_nontrivial': 50000, 'budget': 30,
          'class_floors': {'flavour_OrderedKeysHashtable<int,int>': 50000, 'flavour_OrderedValuesHashtable<int,int>': 50000, 'flavour_OrderedKeysHashtable<String,String>': 20000, 'flavour_Hashtable<String,int>': 20000,
                           'case_live_traversal_completed_and_judged': 5000, 'case_with_auto_sort_switched_off': 20000, 'case_sorted_by_value_with_equal_values': 20000}},
     ],
@@ -86,7 +86,7 @@ CHECKS['C20'] = {
              'Distinct: hash of the decoded step bytes.'),
     'assumptions': [],
     'targets': [
-        {'name': 'c20_pulsenode', 'src': ['harness/C20_pulsenode.cpp'], 'quick_n': 10000000, 'thorough_n': 100000000, 'maxlen': 400, 'min_nontrivial': 1000000,
+        {'name': 'c20_pulsenode', 'src': ['harness/C20_pulsenode.cpp'], 'quick_n': 10000000, 'thorough_n': 80000000, 'maxlen': 400, 'min_nontrivial': 1000000,
          'class_floors': {'case_with_callback_mutation': 200000, 'case_pulse_fired_nodes_at_two_depths': 100000, 'case_with_deferred_due_node': 20000}},
     ],
 }
@@ -103,7 +103,7 @@ CHECKS['C01'] = {
              'or nesting depth >= 2, or a non-flattenable field is present. Distinct: hash of the flattened bytes.'),
     'assumptions': ['zero-length raw items are built only through AddFlat(ByteBuffer) (AddData documents that 0 bytes are rejected)'],
     'targets': [
-        {'name': 'c01_roundtrip', 'src': ['harness/C01_roundtrip.cpp'], 'quick_n': 1000000, 'thorough_n': 12000000, 'maxlen': 600, 'min_nontrivial': 100000,
+        {'name': 'c01_roundtrip', 'src': ['harness/C01_roundtrip.cpp'], 'quick_n': 1000000, 'thorough_n': 8000000, 'maxlen': 600, 'min_nontrivial': 100000,
          'class_floors': {'case_field_crossed_inline_array_boundary': 50000, 'case_nesting_ge_2': 5000, 'case_with_pointer_or_tag_field': 3000, 'case_equality_asserted': 50000, 'case_with_nan': 20000}},
     ],
 }
@@ -117,9 +117,9 @@ CHECKS['C02'] = {
     'rule': ('Byte-decoded cases: parser selector x input source (mutated valid encoding 13/16, valid encoding, raw bytes behind a valid magic, deep nesting) x 1..4 mutations. Non-trivial: the input passes the first gate of its parser (valid magic and non-zero field count, i.e. field parsing is reached; for the templated parser: non-empty payload against a generated template). Distinct: hash of the input bytes and parser selector.'),
     'assumptions': ['gateways are held to memory-safety/termination only; the allocation clause is stated for the Message parsers'],
     'targets': [
-        {'name': 'c02_parsers', 'src': ['harness/C02_parsers.cpp'], 'ccodecs': True, 'meter': True, 'quick_n': 1200000, 'thorough_n': 16000000, 'maxlen': 500, 'min_nontrivial': 50000, 'timeout_is_violation': True, 'budget': 8,
+        {'name': 'c02_parsers', 'src': ['harness/C02_parsers.cpp'], 'ccodecs': True, 'meter': True, 'quick_n': 1200000, 'thorough_n': 9600000, 'maxlen': 500, 'min_nontrivial': 50000, 'timeout_is_violation': True, 'budget': 8,
          'class_floors': {'entry_cpp': 50000, 'entry_mini': 50000, 'entry_micro': 50000, 'entry_templated': 30000, 'reached_field_parsing': 100000, 'cpp_accepted': 5000, 'cpp_rejected': 20000}},
-        {'name': 'c02_gateways', 'src': ['harness/C02_gateways.cpp'], 'ccodecs': True, 'quick_n': 1500000, 'thorough_n': 15000000, 'maxlen': 700, 'min_nontrivial': 30000, 'timeout_is_violation': True, 'budget': 20,
+        {'name': 'c02_gateways', 'src': ['harness/C02_gateways.cpp'], 'ccodecs': True, 'quick_n': 1500000, 'thorough_n': 12000000, 'maxlen': 700, 'min_nontrivial': 30000, 'timeout_is_violation': True, 'budget': 20,
          'class_floors': {'binary_unlimited': 3000, 'binary_limit_1MiB': 3000, 'templating': 3000, 'text': 3000, 'slip': 3000, 'websocket_server': 3000, 'websocket_client': 3000, 'packet_tunnel': 3000, 'mini_packet_tunnel': 3000, 'mini_c_gateway': 3000, 'micro_c_gateway': 3000, 'reuse_after_reset_checked': 30000, 'case_stream_of_2048_bytes_or_more': 20000}},
     ],
 }
@@ -136,7 +136,7 @@ CHECKS['C03'] = {
              'Non-trivial: >= 2 Messages (lines for the metamorphic text check) and at least one read or write that moved fewer bytes than it could have (split inside a frame). Distinct: hash of (kind, sent bytes).'),
     'assumptions': ['text lines exclude NUL, CR and LF bytes (the text gateway cannot carry them inside a line)'],
     'targets': [
-        {'name': 'c03_gateways', 'src': ['harness/C03_gateways.cpp'], 'ccodecs': True, 'quick_n': 600000, 'thorough_n': 6000000, 'maxlen': 1500, 'min_nontrivial': 30000, 'budget': 60,
+        {'name': 'c03_gateways', 'src': ['harness/C03_gateways.cpp'], 'ccodecs': True, 'quick_n': 600000, 'thorough_n': 4800000, 'maxlen': 1500, 'min_nontrivial': 30000, 'budget': 60,
          'class_floors': {'binary_zlib': 10000, 'templating': 5000, 'text': 3000, 'slip': 1500, 'raw': 1500, 'raw_min_chunk': 1500, 'websocket': 5000, 'mini_gateway': 1500, 'micro_gateway': 1500, 'binary_encoding_switches': 3000, 'binary_zlib_independent_streams': 1500, 'binary_300KiB': 1500}},
     ],
 }
@@ -223,7 +223,7 @@ CHECKS['C08'] = {
              'Up to 6000 python-safe cases per worker are written to batch files and verified by the Python peer; 150 of them also travel through a MessageTransceiverThread over loopback TCP.'),
     'assumptions': ['loopback TCP available for the Python transceiver leg (reported inconclusive otherwise)'],
     'targets': [
-        {'name': 'c08_wire', 'src': ['harness/C08_wire.cpp'], 'ccodecs': True, 'quick_n': 1500000, 'thorough_n': 15000000, 'maxlen': 500, 'min_nontrivial': 200000,
+        {'name': 'c08_wire', 'src': ['harness/C08_wire.cpp'], 'ccodecs': True, 'quick_n': 1500000, 'thorough_n': 12000000, 'maxlen': 500, 'min_nontrivial': 200000,
          'worker_env': _c08_worker_env, 'post': _c08_post, 'replay_hook': _c08_replay, 'replay_aliases': ['c08_python'],
          'class_floors': {'case_python_safe': 50000, 'case_nesting_ge_1': 20000, 'case_three_or_more_field_types': 50000, 'emitted_for_python_peer': 20000, 'case_with_zero_length_raw_item': 10000}},
     ],
@@ -239,7 +239,7 @@ CHECKS['C14'] = {
     'rule': ('Byte-decoded cases: 6/8 semantic (filter tree + 4 Messages, 3 of them generated from the filter), 1/8 hostile archive, 1/8 arbitrary expression string. Non-trivial (semantic): at least one of the four evaluations was decided by a value present in the Message with the right type and index; hostile modes count every case. Distinct: hash of the case bytes.'),
     'assumptions': [],
     'targets': [
-        {'name': 'c14_queryfilter', 'src': ['harness/C14_queryfilter.cpp'], 'quick_n': 2000000, 'thorough_n': 30000000, 'maxlen': 400, 'min_nontrivial': 300000, 'timeout_is_violation': True,
+        {'name': 'c14_queryfilter', 'src': ['harness/C14_queryfilter.cpp'], 'quick_n': 2000000, 'thorough_n': 16000000, 'maxlen': 400, 'min_nontrivial': 300000, 'timeout_is_violation': True,
          'class_floors': {'mode_semantics': 100000, 'mode_hostile_archive': 10000, 'mode_arbitrary_expression': 10000, 'expressions_parsed': 5000, 'evaluations_decided_by_a_present_value': 100000, 'hostile_archive_accepted': 1000, 'arbitrary_expression_accepted': 300}},
     ],
 }
@@ -255,7 +255,7 @@ CHECKS['C15'] = {
              'Non-trivial: pattern has >= 2 constructs and the subject set contains both a match and a non-match (range lists: both; escape law: the string contains a metacharacter). Distinct: hash of the pattern text.'),
     'assumptions': ['subjects for range patterns are canonical decimal integers or purely alphabetic strings'],
     'targets': [
-        {'name': 'c15_patterns', 'src': ['harness/C15_patterns.cpp'], 'quick_n': 3000000, 'thorough_n': 40000000, 'maxlen': 300, 'min_nontrivial': 300000, 'timeout_is_violation': False,
+        {'name': 'c15_patterns', 'src': ['harness/C15_patterns.cpp'], 'quick_n': 3000000, 'thorough_n': 24000000, 'maxlen': 300, 'min_nontrivial': 300000, 'timeout_is_violation': False,
          'class_floors': {'mode_ast_patterns': 500000, 'mode_escape_law': 200000, 'mode_numeric_ranges': 200000, 'case_negated': 100000, 'case_comma_list': 200000}},
     ],
 }
@@ -271,7 +271,7 @@ CHECKS['C12'] = {
     'assumptions': [],
     'evidence_extra': lambda pt: {'exhaustive_fault_plans_enumerated': pt['c12_tunnel']['classes'].get('exhaustive_fault_plans', 0), 'exhaustive_note': 'each exhaustive plan set enumerates all 4^n {deliver,drop,duplicate,swap-with-next} plans of one generated packet sequence (n <= 6); the space of sequences itself is sampled, so exhaustive=false overall'},
     'targets': [
-        {'name': 'c12_tunnel', 'src': ['harness/C12_tunnel.cpp'], 'quick_n': 300000, 'thorough_n': 5000000, 'maxlen': 400, 'min_nontrivial': 50000, 'budget': 60,
+        {'name': 'c12_tunnel', 'src': ['harness/C12_tunnel.cpp'], 'quick_n': 300000, 'thorough_n': 2400000, 'maxlen': 400, 'min_nontrivial': 50000, 'budget': 60,
          'class_floors': {'mini_tunnel': 20000, 'packet_tunnel': 20000, 'exhaustive_plan_sets': 3000, 'message_id_wraparound': 3000, 'several_senders': 20000, 'with_slave_gateway': 20000, 'mode_fault_free_with_would_block_writes': 10000}},
     ],
 }
@@ -289,7 +289,7 @@ CHECKS['C18'] = {
     'rule': ('Byte-decoded cases: scripts + schedule. Non-trivial (random mode): some acquire blocked and was later granted, or an upgrade was attempted while another reader held the lock; (exhaustive mode) >= 2 schedules enumerated. Distinct: hash of scripts and of the choices made.'),
     'assumptions': ['scripts are compliant: everything acquired is eventually released'],
     'targets': [
-        {'name': 'c18_rwmutex', 'src': ['harness/C18_rwmutex.cpp'], 'quick_n': 40000, 'thorough_n': 2000000, 'maxlen': 300, 'min_nontrivial': 5000, 'budget': 120,
+        {'name': 'c18_rwmutex', 'src': ['harness/C18_rwmutex.cpp'], 'quick_n': 40000, 'thorough_n': 320000, 'maxlen': 300, 'min_nontrivial': 5000, 'budget': 120,
          'class_floors': {'case_blocked_acquire_later_granted': 5000, 'case_upgrade_while_another_reader_holds': 500, 'case_with_failed_try_or_timed_acquire': 3000, 'case_reader_arrives_while_writer_waits': 200, 'exhaustive_configs': 100, 'determinism_selftests': 1000}},
     ],
 }
@@ -303,7 +303,7 @@ CHECKS['C11'] = {
     'rule': ('Byte-decoded cases: configuration + receive plan + schedule. Non-trivial: at least one preemption and at least two block-then-wake events (so sends and waits actually interleaved). Distinct: hash of configuration and of the choices made.'),
     'assumptions': [],
     'targets': [
-        {'name': 'c11_thread', 'src': ['harness/C11_thread.cpp'], 'quick_n': 150000, 'thorough_n': 3000000, 'maxlen': 300, 'min_nontrivial': 20000, 'budget': 120,
+        {'name': 'c11_thread', 'src': ['harness/C11_thread.cpp'], 'quick_n': 150000, 'thorough_n': 1200000, 'maxlen': 300, 'min_nontrivial': 20000, 'budget': 120,
          'class_floors': {'signalling_socket_pair': 3000, 'signalling_wait_condition': 3000, 'case_messages_queued_before_start': 3000, 'case_restart_of_same_thread_object': 2000, 'case_extra_sender_threads': 3000}},
     ],
 }
@@ -317,7 +317,7 @@ CHECKS['C19'] = {
     'rule': ('Byte-decoded cases: configuration + per-submitter scripts + schedule. Non-trivial: an unregistration was issued while Messages of that client were still outstanding, or >= 2 handlers ran in parallel with at least one preemption. Distinct: hash of configuration, scripts and choices.'),
     'assumptions': ['clients are unregistered before they and the pool are destroyed (documented requirement)'],
     'targets': [
-        {'name': 'c19_threadpool', 'src': ['harness/C19_threadpool.cpp'], 'quick_n': 100000, 'thorough_n': 2000000, 'maxlen': 400, 'min_nontrivial': 20000, 'budget': 120,
+        {'name': 'c19_threadpool', 'src': ['harness/C19_threadpool.cpp'], 'quick_n': 100000, 'thorough_n': 800000, 'maxlen': 400, 'min_nontrivial': 20000, 'budget': 120,
          'class_floors': {'case_handlers_ran_in_parallel': 5000, 'case_more_clients_than_pool_threads': 15000, 'case_unregister_with_messages_outstanding': 10000}},
     ],
 }
@@ -332,9 +332,9 @@ CHECKS['C10'] = {
     'rule': ('Byte-decoded cases: configuration + scripts + schedule. Non-trivial: (multi-threaded) at least one preemption and an object whose final release was performed by a thread other than the one that obtained it; (single-threaded) >= 2 objects obtained. Distinct: hash of configuration, scripts and choices. c10_tsan counts iterations.'),
     'assumptions': [],
     'targets': [
-        {'name': 'c10_refcount', 'src': ['harness/C10_refcount.cpp'], 'quick_n': 600000, 'thorough_n': 10000000, 'maxlen': 300, 'min_nontrivial': 50000, 'budget': 120,
+        {'name': 'c10_refcount', 'src': ['harness/C10_refcount.cpp'], 'quick_n': 600000, 'thorough_n': 4800000, 'maxlen': 300, 'min_nontrivial': 50000, 'budget': 120,
          'class_floors': {'case_single_threaded_history': 50000, 'case_multi_threaded': 200000, 'case_final_release_by_another_thread': 50000, 'case_non_counting_reference_switched_to_counting': 10000}},
-        {'name': 'c10_tsan', 'src': ['harness/C10_tsan.cpp'], 'variant': 'tsan', 'fuzz': False, 'coverage': False, 'quick_n': 24000, 'thorough_n': 400000, 'maxlen': 16, 'min_nontrivial': 5000, 'budget': 300, 'repro_min': 1,
+        {'name': 'c10_tsan', 'src': ['harness/C10_tsan.cpp'], 'variant': 'tsan', 'fuzz': False, 'coverage': False, 'quick_n': 24000, 'thorough_n': 192000, 'maxlen': 16, 'min_nontrivial': 5000, 'budget': 300, 'repro_min': 1,
          'class_floors': {'thread_echo_runs': 1000}},
     ],
 }
@@ -351,7 +351,7 @@ CHECKS['C04'] = {
     'rule': ('Byte-decoded histories of <= 50 steps. Non-trivial: at least one mirror node compared and the history contains a set-then-remove inside one BATCH, or a filter change on an existing subscription, or a session departure while another session is subscribed. Distinct: hash of the decoded step bytes.'),
     'assumptions': ['PR_NAME_DISABLE_SUBSCRIPTIONS is not generated here (documented stop-telling-me switch; exercised under C07)'],
     'targets': [
-        {'name': 'c04_mirror', 'src': ['harness/C04_mirror.cpp'], 'quick_n': 60000, 'thorough_n': 1500000, 'maxlen': 500, 'min_nontrivial': 3000, 'budget': 120,
+        {'name': 'c04_mirror', 'src': ['harness/C04_mirror.cpp'], 'quick_n': 60000, 'thorough_n': 480000, 'maxlen': 500, 'min_nontrivial': 3000, 'budget': 120,
          'class_floors': {'case_set_then_remove_in_one_batch': 200, 'case_filter_change_on_existing_subscription': 500, 'case_departure_while_others_subscribed': 2000}},
     ],
 }
@@ -365,7 +365,7 @@ CHECKS['C13'] = {
     'rule': ('Byte-decoded histories of <= 50 steps. Non-trivial: at least one armed index replay was compared and the history contains a reorder or an indexed removal. Distinct: hash of the decoded step bytes.'),
     'assumptions': [],
     'targets': [
-        {'name': 'c13_index', 'src': ['harness/C04_mirror.cpp'], 'extra_flags': ['-DVF_C13=1'], 'quick_n': 60000, 'thorough_n': 1500000, 'maxlen': 500, 'min_nontrivial': 3000, 'budget': 120,
+        {'name': 'c13_index', 'src': ['harness/C04_mirror.cpp'], 'extra_flags': ['-DVF_C13=1'], 'quick_n': 60000, 'thorough_n': 480000, 'maxlen': 500, 'min_nontrivial': 3000, 'budget': 120,
          'class_floors': {'case_with_reorder': 5000, 'case_with_armed_index_replay_compared': 3000}},
     ],
 }
@@ -379,8 +379,8 @@ CHECKS['C05'] = {
     'rule': ('Byte-decoded cases, half routing, half traversal. Non-trivial: the Message / GETDATA carries two keys of equal depth, or keys of different depths (routing), or a key mixing literal and wildcard clause levels (traversal: both the hash-lookup fast path and the wildcard path run). Distinct: hash of the rendered keys.'),
     'assumptions': ['path clauses are non-empty and patterns do not end in a lone backslash (PutPathString and GetPathDepth count empty clauses differently; exercised only under C07)'],
     'targets': [
-        {'name': 'c05_routing', 'src': ['harness/C05_routing.cpp'], 'quick_n': 300000, 'thorough_n': 2000000, 'maxlen': 300, 'min_nontrivial': 5000, 'budget': 120,
-         'class_floors': {'mode_routing': 100000, 'mode_traversal': 100000, 'case_two_keys_of_equal_depth': 50000, 'case_keys_of_different_depths': 20000, 'case_with_filters': 10000, 'case_key_mixing_literal_and_wildcard_levels': 20000, 'case_keyless_message_after_default_route_was_replaced': 1000}},
+        {'name': 'c05_routing', 'src': ['harness/C05_routing.cpp'], 'quick_n': 300000, 'thorough_n': 2400000, 'maxlen': 300, 'min_nontrivial': 5000, 'budget': 120,
+         'class_floors': {'mode_routing': 100000, 'mode_traversal': 100000, 'case_two_keys_of_equal_depth': 50000, 'case_keys_of_different_depths': 20000, 'case_with_filters': 10000, 'case_key_mixing_literal_and_wildcard_levels': 20000, 'case_keyless_message_after_default_route_was_replaced': 500}},
     ],
 }
 
@@ -393,7 +393,7 @@ CHECKS['C07'] = {
     'rule': ('Byte-decoded histories. Non-trivial: a JETTISONRESULTS arrived while replies were queued for a non-reading client, or a handler was reached with a wrong-typed reserved field, or >= 2 commands were sent while the sender was not reading. Distinct: hash of the decoded history bytes.'),
     'assumptions': [],
     'targets': [
-        {'name': 'c07_hostile', 'src': ['harness/C07_hostile.cpp'], 'quick_n': 200000, 'thorough_n': 2000000, 'maxlen': 600, 'min_nontrivial': 5000, 'budget': 10, 'timeout_is_violation': True,
+        {'name': 'c07_hostile', 'src': ['harness/C07_hostile.cpp'], 'quick_n': 200000, 'thorough_n': 1600000, 'maxlen': 600, 'min_nontrivial': 5000, 'budget': 10, 'timeout_is_violation': True,
          'class_floors': {'case_jettison_with_replies_queued': 20000, 'case_wrong_typed_reserved_field': 10000}},
     ],
 }
@@ -407,7 +407,7 @@ CHECKS['C06'] = {
     'rule': ('Byte-decoded cases, half isolation, half cleanup. Non-trivial: (isolation) at least one adversary path addresses the victim\'s subtree (absolute, host and session clause literal or wildcard, >= 3 clauses); (cleanup) the cut fell strictly inside the pending output. Distinct: hash of the decoded commands (and cut position).'),
     'assumptions': [],
     'targets': [
-        {'name': 'c06_isolation', 'src': ['harness/C06_isolation.cpp'], 'quick_n': 40000, 'thorough_n': 2000000, 'maxlen': 600, 'min_nontrivial': 5000, 'budget': 30,
+        {'name': 'c06_isolation', 'src': ['harness/C06_isolation.cpp'], 'quick_n': 40000, 'thorough_n': 320000, 'maxlen': 600, 'min_nontrivial': 5000, 'budget': 30,
          'class_floors': {'mode_isolation': 10000, 'mode_cleanup': 10000, 'case_adversary_addressed_victim_subtree': 3000, 'case_cut_strictly_inside_pending_output': 3000, 'privileged_commands_bounced': 1000}},
     ],
 }
